@@ -36,6 +36,11 @@ func (b *Body) call(v ssa.Value, c *ssa.CallCommon, blk *ssa.BasicBlock, reach *
 	ft := b.ft
 	key, fn, sig := calleeKey(c)
 	if strings.HasPrefix(key, "builtin.") {
+		var bargs []*Val
+		for _, a := range c.Args {
+			bargs = append(bargs, b.val(a))
+		}
+		b.callSiteClauses(key, c, nil, bargs, reach, st, pos)
 		b.builtin(v, c, key[len("builtin."):], blk, reach, st, pos)
 		return
 	}
@@ -690,6 +695,12 @@ func (b *Body) appendBuiltin(v ssa.Value, c *ssa.CallCommon, blk *ssa.BasicBlock
 	k := fmt.Sprintf("j!%d", ft.count("qv"))
 	ft.fact(Forall([][2]string{{k, "Int"}}, Imp(And(A("<=", Int(0), L(k)), A("<", L(k), el)), Eq(Sel(na, A("+", sl0, L(k))), Sel(Sel(h, e.T), L(k)))), []*T{Sel(Sel(h, e.T), L(k))}))
 	ft.setRegion(st, reg, Sto(h, ref, na))
+	// registered prefix sums are additive over concatenation (A-FOLD)
+	for _, sf := range ft.e.prelude.AppendSum[es] {
+		ft.fact(Eq(A(sf, na, A("+", sl0, el)), A("+", A(sf, Sel(h, s.T), sl0), A(sf, Sel(h, e.T), el))))
+		ft.usedSpec[sf] = true
+		ft.trusted["A-FOLD: "+sf+" is additive over append (sum of a concatenation)"] = true
+	}
 }
 
 // constLenOfVarargs recognises `slice (new [k]T)[:]`.
